@@ -28,7 +28,8 @@ Op language (one op per line):
   exited by two goroutines at the same moment: `Exit` is idempotent (`exit_twice`), so the line is the same.  Must be the last op of its case; the
   resource must carry concurrency rules only (a throttling rule would sleep on the single-threaded virtual clock).
 * `flowblock <res>` — a flow rule with threshold 0 on `res` (every entry there is blocked by the flow slot)
-* `entry <id> <res> [#batch] <val>… @key=val…` ⇒ `pass | block hot | block flow`
+* `entry <id> <res> [#batch] <val>… [+ <val>…]… @key=val…` ⇒ `pass | block hot | block flow` (`+` starts another `WithArgs`
+  option of the same call: `Input.Args` is the concatenation)
 * `exit <id>`
 * `args <id>` ⇒ the live entry's `Input.Args` (`none` if the entry is not live)
 * `pentry <id> <res> <val>… @key=val…` — the same `api.Entry` call made by another goroutine, which is parked at the
@@ -90,7 +91,8 @@ def parseRules? (ts : List String) : Option (List Rule) :=
 /-- entry arguments: plain values are `WithArgs`, `@key=val` are attachments (a later key replaces an earlier one) -/
 def parseEntryArgs? (ts : List String) : Option (List Val × List (String × Val)) :=
   ts.foldl (fun acc t => acc.bind fun (as, ats) =>
-    if t.startsWith "#" then (if (t.drop 1).toString.toNat?.isSome then some (as, ats) else none)
+    if t == "+" then some (as, ats)     -- `+` starts another `WithArgs` option: the options' arguments are appended
+    else if t.startsWith "#" then (if (t.drop 1).toString.toNat?.isSome then some (as, ats) else none)
     else if t.startsWith "@" then
       match (t.drop 1).toString.splitOn "=" with
       | [k, v] => (parseVal? v).map fun v => (as, ats.filter (fun p => p.1 ≠ k) ++ [(k, v)])
